@@ -10,3 +10,20 @@ type LoadFormer interface {
 	// or panic if that is not possible.
 	LoadForm() Object
 }
+
+// LoadFormValue returns a form for a value that is embedded in the load form
+// of another object, a place where the form is evaluated. A symbol is quoted
+// unless it is a keyword, a LoadFormer provides its load form, and anything
+// else is returned as is.
+func LoadFormValue(v Object) Object {
+	switch tv := v.(type) {
+	case Symbol:
+		if 0 < len(tv) && tv[0] == ':' {
+			return tv
+		}
+		return List{quoteSymbol, tv}
+	case LoadFormer:
+		return tv.LoadForm()
+	}
+	return v
+}
